@@ -172,7 +172,10 @@ class SmtpRelayClient(RelayPoolClient):
     def _mailfrom(self, sender):
         assert self.client is not None
         with Timeout(self.command_timeout):
-            mailfrom = self.client.mailfrom(sender, auth=False)
+            try:
+                mailfrom = self.client.mailfrom(sender, auth=False)
+            except UnicodeEncodeError:
+                raise SmtpRelayError.factory(self._not_smtputf8(b'MAIL'))
         if mailfrom and _refused(mailfrom):
             raise SmtpRelayError.factory(mailfrom)
         return mailfrom
@@ -181,7 +184,16 @@ class SmtpRelayClient(RelayPoolClient):
     def _rcptto(self, rcpt):
         assert self.client is not None
         with Timeout(self.command_timeout):
-            return self.client.rcptto(rcpt)
+            try:
+                return self.client.rcptto(rcpt)
+            except UnicodeEncodeError:
+                return self._not_smtputf8(b'RCPT')
+
+    def _not_smtputf8(self, command):
+        # A non-ASCII address and a server without SMTPUTF8: the address is
+        # refused here, as a server unable to take it would refuse it.
+        return Reply('553', '5.6.7 Address requires SMTPUTF8',
+                     command=command, address=self.address)
 
     @current_command(b'DATA')
     def _data(self):
